@@ -2,6 +2,7 @@ import Fundraising.Generated.Code.Bids
 import Fundraising.Tables.GoRun
 import Fundraising.Proofs.Tie.BidsPure
 import Fundraising.Proofs.ExecLemmas
+import Fundraising.Proofs.AcceptModify
 /-
   Tie of the translated `Keeper.PlaceBid` / `Keeper.ModifyBid` (keeper/bid.go) to the
   hand-written handlers `placeBid` / `modifyBid` of Model/Keeper.lean: the model handler IS the
@@ -9,6 +10,7 @@ import Fundraising.Proofs.ExecLemmas
   from the Go source — same guards in the same order, same bank calls with the same amounts, the
   hook before the `Bid.Set`, the same records written.
 -/
+set_option linter.unusedSimpArgs false
 namespace Fundraising
 open Fundraising.Gen Fundraising.Go
 
@@ -18,6 +20,25 @@ theorem setBid_fresh (l : List Bid) (b : Bid) (h : ∀ x ∈ l, x.id ≠ b.id) :
     simp only [List.any_eq_false, beq_iff_eq]
     exact fun x hx => h x hx
   simp [this]
+
+/-- `Bid.Set` on an id that `find?` has found replaces that record, as the model's `List.map` -/
+theorem setBid_found (l : List Bid) (b b' : Bid) (n : Nat) (h : l.find? (·.id == n) = some b) (hb : b'.id = b.id) :
+    setBid l b' = l.map (fun x => if x.id == n then b' else x) := by
+  have h1 := List.find?_some h
+  have h2 := List.mem_of_find?_eq_some h
+  simp only [beq_iff_eq] at h1
+  unfold setBid
+  have : l.any (·.id == b'.id) = true := by
+    simp only [List.any_eq_true, beq_iff_eq]
+    exact ⟨b, h2, hb.symm⟩
+  rw [if_pos this]
+  simp [hb, h1]
+
+private theorem okbind {α β : Type} (x : α) (f : α → M β) : (Except.ok x >>= f) = f x := rfl
+
+/-- unfold the interpreter and the monad on a concrete plan, with the given facts -/
+local macro "tie_simp" "[" ls:Lean.Parser.Tactic.simpLemma,* "]" : tactic =>
+  `(tactic| simp [runPlan, applyEff, bind, Except.bind, pure, Except.pure, Ctx.fail, Ctx.check, bidHookArgs, $ls,*])
 
 /-- **PlaceBid.**  `hacc`: `ValidateBasic` has accepted the bidder address; `hfresh`: the next
     bid id is unused (`ViewWF.bidIds`/`bidSeq`); `hL`: `L` is what `GetBidsByBidder` returns (the
@@ -29,14 +50,105 @@ theorem tie_PlaceBid (c : Ctx) (bidder : Acc) (aid : Nat) (t : BidType) (price :
     placeBid c bidder aid t price denom amt =
        Go.runPlan c aid v (Gen.PlaceBid ⟨bidder, aid, t, price, denom, amt⟩ v.a false ((v.bidSeq + 1 : Nat) : Int) L
           ((lookupAllowed v.allowed bidder).getD default) (lookupAllowed v.allowed bidder).isNone).2 := by
-  sorry
+  unfold placeBid Gen.PlaceBid
+  simp only [Ctx.view, hv, tie_ValidateBatchWorthBid, tie_ValidateBatchManyBid, tie_ValidateFixedPriceBid,
+    tie_ConvertToPayingAmount, tie_ConvertToSellingAmount, hL, apply_ite Prod.snd, apply_ite (runPlan c aid v)]
+  have hsb : ∀ b : Bid, b.id = v.bidSeq + 1 → setBid v.bids b = v.bids ++ [b] :=
+    fun b hb => setBid_fresh _ _ (by rw [hb]; exact hfresh)
+  cases t with
+  | fixed =>
+    simp only [Int.toNat_natCast, hacc, okbind, bidderTotal]
+    obtain ⟨q, hq⟩ : ∃ q, Bid.toSelling ⟨aid, v.bidSeq+1, bidder, .fixed, price, denom, amt, false⟩ v.a.payDenom = q := ⟨_, rfl⟩
+    obtain ⟨p, hp⟩ : ∃ q, Bid.toPaying ⟨aid, v.bidSeq+1, bidder, .fixed, price, denom, amt, false⟩ v.a.payDenom = q := ⟨_, rfl⟩
+    obtain ⟨tot, htot⟩ : ∃ q, List.foldl (fun s b => s + b.toSelling v.a.payDenom) 0 (List.filter (fun x => x.bidder == bidder) v.bids) = q := ⟨_, rfl⟩
+    simp only [hq, hp, htot]
+    clear hq hp htot
+    cases hab : lookupAllowed v.allowed bidder with
+    | none =>
+      tie_simp []
+      grind
+    | some ab =>
+      cases hty : v.a.type with
+      | batch =>
+        cases hfee : c.bankCall XKind.pool (Addr.user bidder) Addr.pool c.s.params.bidFee <;>
+        tie_simp [hfee] <;> grind
+      | fixed =>
+        cases hfee : c.bankCall XKind.pool (Addr.user bidder) Addr.pool c.s.params.bidFee with
+        | error e => tie_simp [hfee]; try grind
+        | ok c1 =>
+        cases hmk : mkCoins c1 v.a.payDenom p with
+        | error e => tie_simp [hfee, hmk]; try grind
+        | ok coins =>
+        cases hb : c1.bankCall .send (.user bidder) (.pay aid) coins with
+        | error e => tie_simp [hfee, hmk, hb]; try grind
+        | ok c2 =>
+        cases hh : c2.hook "BeforeBidPlaced" [rNat aid, rNat (v.bidSeq + 1), rAcc bidder, rBidType BidType.fixed, rInt price, rNat denom, rInt amt] <;>
+        tie_simp [hfee, hmk, hb, hh, hsb] <;> try grind
+  | worth =>
+    simp only [Int.toNat_natCast, hacc, okbind]
+    obtain ⟨q, hq⟩ : ∃ q, Bid.toSelling ⟨aid, v.bidSeq+1, bidder, .worth, price, denom, amt, false⟩ v.a.payDenom = q := ⟨_, rfl⟩
+    obtain ⟨p, hp⟩ : ∃ q, Bid.toPaying ⟨aid, v.bidSeq+1, bidder, .worth, price, denom, amt, false⟩ v.a.payDenom = q := ⟨_, rfl⟩
+    simp only [hq, hp]
+    clear hq hp
+    cases hab : lookupAllowed v.allowed bidder with
+    | none =>
+      tie_simp []
+      grind
+    | some ab =>
+      cases hty : v.a.type with
+      | fixed =>
+        cases hfee : c.bankCall XKind.pool (Addr.user bidder) Addr.pool c.s.params.bidFee <;>
+        tie_simp [hfee] <;> grind
+      | batch =>
+        cases hfee : c.bankCall XKind.pool (Addr.user bidder) Addr.pool c.s.params.bidFee with
+        | error e => tie_simp [hfee]; try grind
+        | ok c1 =>
+        cases hmk : mkCoins c1 denom amt with
+        | error e => tie_simp [hfee, hmk]; try grind
+        | ok coins =>
+        cases hb : c1.bankCall .send (.user bidder) (.pay aid) coins with
+        | error e => tie_simp [hfee, hmk, hb]; try grind
+        | ok c2 =>
+        cases hh : c2.hook "BeforeBidPlaced" [rNat aid, rNat (v.bidSeq + 1), rAcc bidder, rBidType BidType.worth, rInt price, rNat denom, rInt amt] <;>
+        tie_simp [hfee, hmk, hb, hh, hsb] <;> try grind
+  | many =>
+    simp only [Int.toNat_natCast, hacc, okbind]
+    obtain ⟨q, hq⟩ : ∃ q, Bid.toSelling ⟨aid, v.bidSeq+1, bidder, .many, price, denom, amt, false⟩ v.a.payDenom = q := ⟨_, rfl⟩
+    obtain ⟨p, hp⟩ : ∃ q, Bid.toPaying ⟨aid, v.bidSeq+1, bidder, .many, price, denom, amt, false⟩ v.a.payDenom = q := ⟨_, rfl⟩
+    simp only [hq, hp]
+    clear hq hp
+    cases hab : lookupAllowed v.allowed bidder with
+    | none =>
+      tie_simp []
+      grind
+    | some ab =>
+      cases hty : v.a.type with
+      | fixed =>
+        cases hfee : c.bankCall XKind.pool (Addr.user bidder) Addr.pool c.s.params.bidFee <;>
+        tie_simp [hfee] <;> grind
+      | batch =>
+        cases hfee : c.bankCall XKind.pool (Addr.user bidder) Addr.pool c.s.params.bidFee with
+        | error e => tie_simp [hfee]; try grind
+        | ok c1 =>
+        cases hmk : mkCoins c1 v.a.payDenom p with
+        | error e => tie_simp [hfee, hmk]; try grind
+        | ok coins =>
+        cases hb : c1.bankCall .send (.user bidder) (.pay aid) coins with
+        | error e => tie_simp [hfee, hmk, hb]; try grind
+        | ok c2 =>
+        cases hh : c2.hook "BeforeBidPlaced" [rNat aid, rNat (v.bidSeq + 1), rAcc bidder, rBidType BidType.many, rInt price, rNat denom, rInt amt] <;>
+        tie_simp [hfee, hmk, hb, hh, hsb] <;> try grind
 
 /-- an unknown auction id: both reject without any effect -/
 theorem tie_PlaceBid_noAuction (c : Ctx) (bidder : Acc) (aid : Nat) (t : BidType) (price : Dec) (denom : Denom) (amt : Int)
     (hv : c.s.views[aid]? = none) (a : Auction) (n : Int) (L : List Bid) (ab : Allowed) (e : Bool) :
     placeBid c bidder aid t price denom amt = c.fail ∧
     (Gen.PlaceBid ⟨bidder, aid, t, price, denom, amt⟩ a true n L ab e).2 = (true, []) := by
-  sorry
+  constructor
+  · unfold placeBid
+    simp only [Ctx.view, hv]
+    rfl
+  · simp [Gen.PlaceBid]
 
 /-- **ModifyBid.**  `hpos`: recorded bids have positive amount and price (`BidWF`), which is what
     makes the difference of the two ceilings non-negative (Go would panic in `sdk.NewCoin`
@@ -47,12 +159,68 @@ theorem tie_ModifyBid (c : Ctx) (bidder : Acc) (aid bidId : Nat) (price : Dec) (
     modifyBid c bidder aid bidId price denom amt =
       Go.runPlan c aid v (Gen.ModifyBid ⟨bidder, aid, bidId, price, denom, amt⟩ v.a false
         ((v.bids.find? (·.id == bidId)).getD default) (v.bids.find? (·.id == bidId)).isNone) := by
-  sorry
+  unfold modifyBid Gen.ModifyBid
+  simp only [Ctx.view, hv, okbind, hacc, apply_ite (runPlan c aid v)]
+  cases hf : v.bids.find? (·.id == bidId) with
+  | none =>
+    tie_simp []
+    grind
+  | some bid =>
+    have hp := hpos bid (List.mem_of_find?_eq_some hf)
+    have hsb : ∀ b' : Bid, b'.id = bid.id → setBid v.bids b' = v.bids.map (fun x => if x.id == bidId then b' else x) :=
+      fun b' hb => setBid_found _ _ _ _ hf hb
+    simp only [Option.getD_some, Option.isNone_some, pure_bind]
+    -- the difference of the two reservations of a `many` bid, non-negative once the guards passed
+    obtain ⟨d, hd⟩ : ∃ d, Dec.truncInt (Dec.ceil (Dec.mul (Dec.ofInt amt) price) - Dec.ceil (Dec.mul (Dec.ofInt bid.amt) bid.price)) = d := ⟨_, rfl⟩
+    have hnn : bid.price ≤ price → bid.amt ≤ amt → 0 ≤ d :=
+      fun h1 h2 => hd ▸ AcceptAux.diff_many_nonneg bid price amt hp.1 hp.2 h1 h2
+    simp only [bidCoin_amt, bidCoin_denom, hd]
+    clear hd hf
+    obtain ⟨bauc, bidid, bbidder, bt, bprice, bdenom, bamt, bm⟩ := bid
+    simp only at hsb hnn hp ⊢
+    by_cases hden : bdenom = denom
+    case neg =>
+      cases bt <;> tie_simp [hden] <;> grind
+    subst hden
+    cases bt with
+    | fixed =>
+      cases hh : c.hook "BeforeBidModified" [rNat bauc, rNat bidid, rAcc bbidder, rBidType BidType.fixed, rInt price, rNat bdenom, rInt amt] <;>
+      tie_simp [hh, hsb] <;> grind
+    | worth =>
+      by_cases hd : amt - bamt > 0
+      · have e1 : ¬ amt - bamt < 0 := by omega
+        have e2 : ¬ amt - bamt = 0 := by omega
+        cases hb : c.bankCall .send (.user bidder) (.pay aid) [⟨bdenom, amt - bamt⟩] with
+        | error e => tie_simp [hb, hsb, mkCoins, hd, e1, e2]; try grind
+        | ok c1 =>
+          cases hh : c1.hook "BeforeBidModified" [rNat bauc, rNat bidid, rAcc bbidder, rBidType BidType.worth, rInt price, rNat bdenom, rInt amt] <;>
+          tie_simp [hb, hh, hsb, mkCoins, hd, e1, e2] <;> try grind
+      · cases hh : c.hook "BeforeBidModified" [rNat bauc, rNat bidid, rAcc bbidder, rBidType BidType.worth, rInt price, rNat bdenom, rInt amt] <;>
+        tie_simp [hh, hsb, hd] <;> try grind
+    | many =>
+      by_cases hd : d > 0
+      · have e1 : ¬ d < 0 := by omega
+        have e2 : ¬ d = 0 := by omega
+        cases hb : c.bankCall .send (.user bidder) (.pay aid) [⟨v.a.payDenom, d⟩] with
+        | error e => tie_simp [hb, hsb, mkCoins, hd, e1, e2]; try grind
+        | ok c1 =>
+          cases hh : c1.hook "BeforeBidModified" [rNat bauc, rNat bidid, rAcc bbidder, rBidType BidType.many, rInt price, rNat bdenom, rInt amt] <;>
+          tie_simp [hb, hh, hsb, mkCoins, hd, e1, e2] <;> try grind
+      · by_cases hd0 : d < 0
+        · -- the model panics here; the guards that passed exclude it (`hnn`)
+          tie_simp [hsb, hd, hd0]
+          grind
+        · cases hh : c.hook "BeforeBidModified" [rNat bauc, rNat bidid, rAcc bbidder, rBidType BidType.many, rInt price, rNat bdenom, rInt amt] <;>
+          tie_simp [hh, hsb, hd, hd0] <;> try grind
 
 theorem tie_ModifyBid_noAuction (c : Ctx) (bidder : Acc) (aid bidId : Nat) (price : Dec) (denom : Denom) (amt : Int)
     (hv : c.s.views[aid]? = none) (a : Auction) (b : Bid) (e : Bool) :
     modifyBid c bidder aid bidId price denom amt = c.fail ∧
     Gen.ModifyBid ⟨bidder, aid, bidId, price, denom, amt⟩ a true b e = (true, []) := by
-  sorry
+  constructor
+  · unfold modifyBid
+    simp only [Ctx.view, hv]
+    rfl
+  · simp [Gen.ModifyBid]
 
 end Fundraising
